@@ -497,6 +497,11 @@ impl Run {
         for l in known_lines {
             println!("{l}");
         }
+        if survey_on() {
+            for (sig, (n, msg, case)) in SURVEY.lock().unwrap().iter() {
+                println!("SURVEY {sig} x{n}\n    {}\n    case: {}", truncate(msg, 600), truncate(case, 600));
+            }
+        }
         for (path, f) in &violation_lines {
             println!(
                 "[{}] part={} signature={} :: {}",
@@ -635,6 +640,16 @@ impl Drop for Watchdog {
 }
 
 pub static HANG_IS_VIOLATION: AtomicBool = AtomicBool::new(false);
+/// development aid (VERIF_SURVEY=1): do not stop at violations, collect one example per signature
+pub static SURVEY: Mutex<BTreeMap<String, (u64, String, String)>> = Mutex::new(BTreeMap::new());
+pub fn survey_on() -> bool {
+    std::env::var_os("VERIF_SURVEY").is_some()
+}
+fn survey_record(v: &Violation, case: impl FnOnce() -> String) {
+    let mut m = SURVEY.lock().unwrap();
+    let e = m.entry(v.sig.clone()).or_insert_with(|| (0, v.msg.clone(), case()));
+    e.0 += 1;
+}
 pub static HANG_PROPERTY: Mutex<String> = Mutex::new(String::new());
 
 // ---------------------------------------------------------------------------
@@ -728,6 +743,10 @@ pub fn run_prop<T, S>(
                     match verdict {
                         Ok(()) => Ok(()),
                         Err(v) => {
+                            if survey_on() {
+                                survey_record(&v, || serde_json::to_string(&case).unwrap_or_default());
+                                return Ok(());
+                            }
                             if known.iter().any(|k| *k == v.sig) {
                                 if counting {
                                     *stats
@@ -830,6 +849,10 @@ pub fn run_indexed(
                             Err(p) => Err(Violation::new("harness-panic", format!("oracle panicked: {p}"))),
                         };
                         if let Err(v) = verdict {
+                            if survey_on() {
+                                survey_record(&v, || describe(i).to_string());
+                                continue;
+                            }
                             if known.iter().any(|k| *k == v.sig) {
                                 *st.known_hits.entry(v.sig.clone()).or_insert(0) += 1;
                                 continue;
